@@ -256,6 +256,11 @@ pub fn gen_readers(rng: &mut Rng, thorough: bool, op: u32, out: &mut Cases) {
                 }
             }
         }
+        // more than 2^32 bytes through ONE reader (65540 maximum-length records, generated on the fly)
+        shapes.push((true, 0, 65535, 65540));
+        if thorough {
+            shapes.push((false, 0, 65535, 65545));
+        }
         for (k, (sh, l1, l, nrec)) in shapes.iter().enumerate() {
             let mut w = W::new();
             w.bool(op == 41);
